@@ -47,6 +47,11 @@ func (m *CSMatrix) SetMajorDim(dim int) {
 	if cap(m.Entries) < dim {
 		m.Entries = append(make([][]Entry, 0, dim), m.Entries...)
 	}
+	if dim < len(m.Entries) {
+		// Drop the truncated spans: they stay in the backing array,
+		// and would otherwise resurface when growing within capacity later.
+		clear(m.Entries[dim:])
+	}
 	m.Entries = m.Entries[:dim]
 	m.MajorDim = dim
 }
